@@ -1931,9 +1931,9 @@ func (ctx *RenderContext) ToString(val interface{}) string {
 	case []byte:
 		return string(v)
 	case fmt.Stringer:
-		return v.String()
+		return stringOfNilSafe(val, func() string { return v.String() })
 	case error:
-		return v.Error()
+		return stringOfNilSafe(val, func() string { return v.Error() })
 	case Node:
 		// a bare macro or other node value has no text of its own
 		return ""
@@ -1960,4 +1960,20 @@ func textWithoutAddress(val interface{}) (string, bool) {
 		return "", true
 	}
 	return "", false
+}
+
+// stringOfNilSafe calls a String or Error method. A nil pointer whose type declares the method on the
+// value cannot be asked (the call dereferences it); like fmt it then prints <nil>. Any other panic
+// of the method is the method's own and is passed on.
+func stringOfNilSafe(val interface{}, call func() string) (s string) {
+	defer func() {
+		if r := recover(); r != nil {
+			if rv := reflect.ValueOf(val); rv.Kind() == reflect.Ptr && rv.IsNil() {
+				s = "<nil>"
+				return
+			}
+			panic(r)
+		}
+	}()
+	return call()
 }
